@@ -15,7 +15,9 @@ Boolean masks are flat row-major grids `List Bool` of length `nrow * ncol`; cell
   `c` of the split functions; `ratioCeil` / `ratioFloor` are its exact-rational forms.
 
 The model mirrors the code as it is now in /repo: the Gaussian request is capped at `#free - 1` before the
-kernel is called (`gaussianSplit`); the pre-repair behaviour is `gaussianSplitPinned`.
+kernel is called (`gaussianSplit`; pre-repair `gaussianSplitPinned`), `uniform_fill` returns early when there
+is nothing to draw (pre-repair `uniformFillPinned`), the half split honours the protected region (pre-repair
+`halfSplitPinned`).
 -/
 namespace DirectVerif.SslSplit
 
@@ -137,7 +139,7 @@ def gaussianSplitPinned (keep : Bool) (a0 a1 : Int) (nrow ncol : Nat) (mask acs 
   | some target => some (finish keep mask' acs target)
 
 inductive UErr where
-  | nanProb      -- `p = prob / prob.sum()` with no free cell: numpy raises ValueError
+  | nanProb      -- pre-repair only: `p = prob / prob.sum()` with no free cell, numpy raises ValueError
   | badDraw      -- the supplied list is not a possible result of `rng.choice(.., size, replace=False, p)`
 deriving Repr, DecidableEq
 
@@ -148,8 +150,15 @@ def validChoice (count : Nat) (free : Grid) (chosen : List Nat) : Bool :=
 /-- `output_mask[ind_x, ind_y] = True` for the unravelled chosen indices -/
 def setAll (out : Grid) (chosen : List Nat) : Grid := chosen.foldl (fun o k => o.set k true) out
 
-/-- `uniform_fill(count, nrow, ncol, free, rng)` given what `rng.choice` returned -/
+/-- `uniform_fill(count, nrow, ncol, free, rng)` given what `rng.choice` returned; the early return
+`if nonzero_mask_count == 0 or prob.sum() == 0: return zeros` does not draw at all -/
 def uniformFill (count : Nat) (free : Grid) (chosen : List Nat) : Except UErr Grid :=
+  if count = 0 ∨ cnt free = 0 then .ok (zeros free.length)
+  else if !validChoice count free chosen then .error .badDraw
+  else .ok (setAll (zeros free.length) chosen)
+
+/-- the tree before the repair: no early return, `0 / 0` probabilities make numpy raise -/
+def uniformFillPinned (count : Nat) (free : Grid) (chosen : List Nat) : Except UErr Grid :=
   if cnt free = 0 then .error .nanProb
   else if !validChoice count free chosen then .error .badDraw
   else .ok (setAll (zeros free.length) chosen)
@@ -179,10 +188,29 @@ def inputSide (d : Dir) (nrow ncol i j : Nat) : Bool :=
   | .diagRight => decide (coordNum nrow i * coordDen ncol + coordNum ncol j * coordDen nrow ≤ 0)  -- xv + yv <= 0
   | .diagLeft => decide (coordNum nrow i * coordDen ncol - coordNum ncol j * coordDen nrow ≤ 0)   -- xv - yv <= 0
 
-/-- `_half_split`: the protected region (`acs_region`) is **not used** by the code -/
-def halfSplit (d : Dir) (keep : Bool) (nrow ncol : Nat) (mask acs : Grid) : Grid × Grid :=
-  let input := mask.mapIdx fun k b => b && inputSide d nrow ncol (k / ncol) (k % ncol)
-  let target := mask.mapIdx fun k b => b && !inputSide d nrow ncol (k / ncol) (k % ncol)
+/-- the half split proper (all the pre-repair tree did: the protected region was **not used**) -/
+def halfParts (d : Dir) (nrow ncol : Nat) (mask : Grid) : Grid × Grid :=
+  (mask.mapIdx fun k b => b && inputSide d nrow ncol (k / ncol) (k % ncol),
+   mask.mapIdx fun k b => b && !inputSide d nrow ncol (k / ncol) (k % ncol))
+
+/-- the boolean grid `protected[cx - a0//2 : cx + a0//2, cy - a1//2 : cy + a1//2] = True` -/
+def protectedGrid (nrow ncol : Nat) (a0 a1 : Int) (len : Nat) : Grid :=
+  let rows := regionIdx nrow a0
+  let cols := regionIdx ncol a1
+  (List.range len).map fun k => rows.contains (k / ncol) && cols.contains (k % ncol)
+
+/-- `_half_split`: when not keep_acs, `input | (mask & protected)`, `target & ~protected`; when keep_acs,
+`| acs_mask` on both -/
+def halfSplit (d : Dir) (keep : Bool) (a0 a1 : Int) (nrow ncol : Nat) (mask acs : Grid) : Grid × Grid :=
+  let (input, target) := halfParts d nrow ncol mask
+  if keep then (gOr input acs, gOr target acs)
+  else
+    let prot := protectedGrid nrow ncol a0 a1 mask.length
+    (gOr input (gAnd mask prot), gAndNot target prot)
+
+/-- the tree before the repair -/
+def halfSplitPinned (d : Dir) (keep : Bool) (nrow ncol : Nat) (mask acs : Grid) : Grid × Grid :=
+  let (input, target) := halfParts d nrow ncol mask
   if keep then (gOr input acs, gOr target acs) else (input, target)
 
 /-! ## `forward`: seeds and k-spaces -/
@@ -254,7 +282,7 @@ def forwardUniform (src : Sources) (cfg : Cfg) (amb : Ambient) (nrow ncol : Nat)
     (splitOut (nrow * ncol) k)
 
 /-- one sample of `HalfMaskSplitterModule.forward` (no randomness) -/
-def forwardHalf (d : Dir) (keep : Bool) (nrow ncol : Nat) (mask acs : Grid) (k : List Int) : SplitOut :=
-  splitOut (nrow * ncol) k (halfSplit d keep nrow ncol mask acs)
+def forwardHalf (d : Dir) (keep : Bool) (a0 a1 : Int) (nrow ncol : Nat) (mask acs : Grid) (k : List Int) : SplitOut :=
+  splitOut (nrow * ncol) k (halfSplit d keep a0 a1 nrow ncol mask acs)
 
 end DirectVerif.SslSplit
